@@ -90,6 +90,17 @@ func readAccept(h string) (ar acceptReading) {
 	return ar
 }
 
+// validHeaderValue: what net/http transmits unchanged (no control characters; surrounding whitespace is trimmed
+// by the transport, which does not change what the header names).
+func validHeaderValue(s string) bool {
+	for i := 0; i < len(s); i++ {
+		if c := s[i]; (c < 32 && c != '\t') || c == 127 {
+			return false
+		}
+	}
+	return true
+}
+
 func asciiLower(s string) string {
 	b := []byte(s)
 	for i, c := range b {
@@ -410,6 +421,49 @@ func monitor(c hxlib.Case, outs []string) (vs []hxlib.Violation) {
 			if f[1] == "@t" && f[2] == "@m" && pendMime != nil {
 				checkLoad(i, pendMime)
 			}
+		case "wire", "wirea":
+			if st.val == nil {
+				break
+			}
+			allRep := st.representable("json") && st.representable("yaml") && st.representable("cbor") && st.representable("msgpack")
+			if !allRep {
+				break
+			}
+			of := strings.Fields(o)
+			okOut := len(of) == 4 && of[1] == "ok" && strings.HasPrefix(of[3], "ct=")
+			if f[0] == "wire" {
+				fm, _ := parseU8(f[1])
+				lib, supported := libOfFormat[fm]
+				if !supported || lib == "gencode" {
+					if !okOut {
+						break // refused: nothing was sent
+					}
+				}
+				sig := "C09:http-wire:" + fname(fm)
+				if !okOut || of[2] != st.id {
+					add(i, sig, "request in "+fname(fm)+" echoed by a server over a real connection: client gets "+o+", want a value equal to the dumped one")
+					break
+				}
+				if supported && of[0] != strconv.Itoa(int(fm)) {
+					add(i, sig, "request in "+fname(fm)+": the response came back in format "+of[0])
+				}
+				if l := contentTypeLib(string(hxlib.UnHex(of[3][3:]))); l == "" || strconv.Itoa(int(formatOfLib[l])) != of[0] {
+					add(i, sig, "response content type "+string(hxlib.UnHex(of[3][3:]))+" does not name the format loaded ("+of[0]+")")
+				}
+			} else {
+				accept := string(hxlib.UnHex(f[1]))
+				ar := readAccept(accept)
+				sig := "C09:http-wire:accept"
+				if okOut {
+					if of[2] != st.id {
+						add(i, sig, fmt.Sprintf("Accept %q over a real connection: client gets %s, want a value equal to the dumped one", accept, o))
+					}
+					break
+				}
+				if (len(ar.named) > 0 || ar.wildcard) && validHeaderValue(accept) && o != "err transport" {
+					add(i, sig, fmt.Sprintf("Accept %q names a supported format or a wildcard, but over a real connection the client gets %s", accept, o))
+				}
+			}
 		}
 	}
 	return vs
@@ -589,7 +643,7 @@ func (g *gen) roundtripCase(tag string, v any, noModel bool, kind string) {
 var types = []string{"application", "text", "image", "*", "APPLICATION", "x-app", ""}
 var goodSubs = []string{"json", "cbor", "msgpack", "yaml", "yml"}
 var badSubs = []string{"xml", "html", "webp", "x-yaml", "json5", "vnd.api+json", "jso", "yamll", "msgpac", "octet-stream", "plain", ""}
-var params = []string{";q=0.9", "; q=0.5", ";charset=utf-8", "; charset=UTF-8", ";q=0", ";", ";;", ";q=1;level=2", "; foo=\"a,b\"", " ;q=1", " ; q=0.1", "\t;q=1", ";json", ";/json"}
+var params = []string{";q=0.9", "; q=0.5", ";charset=utf-8", "; charset=UTF-8", ";q=0", ";q=1;level=2", ";", ";v=b3", ";;", "; foo=\"a,b\"", " ;q=1", " ; q=0.1", "\t;q=1", ";json", ";/json"}
 var ows = []string{"", "", "", " ", " ", "\t", "  ", " \t ", "\u00a0", "\u2003", "\u3000", "\n", "\r\n", "\u0085", "\u200b", "\v\f", "\u1680", "\u2028"}
 var seps = []string{",", ",", ", ", " , ", ",,", " ,\t"}
 
@@ -653,7 +707,10 @@ func (g *gen) mediaRange() (s string, class string) {
 	}
 }
 
+// acceptHeader: half of the headers are "clean" (media ranges with a proper type, SP/HTAB as only whitespace,
+// parameters directly after the media range), the other half draws from everything, garbage included.
 func (g *gen) acceptHeader() (string, bool) {
+	clean := g.rng.Intn(2) == 0
 	n := 1
 	switch g.rng.Intn(8) {
 	case 0:
@@ -665,25 +722,43 @@ func (g *gen) acceptHeader() (string, bool) {
 	default:
 		n = 2 + g.rng.Intn(4)
 	}
+	pick := func(pool []string, k int) string {
+		if clean {
+			return pool[g.rng.Intn(k)]
+		}
+		return pool[g.rng.Intn(len(pool))]
+	}
 	var sb strings.Builder
 	nontrivial := n >= 2
 	for i := 0; i < n; i++ {
 		if i > 0 {
-			sb.WriteString(seps[g.rng.Intn(len(seps))])
+			sb.WriteString(pick(seps, 4))
 		}
-		mr, class := g.mediaRange()
+		var mr, class string
+		for {
+			mr, class = g.mediaRange()
+			if !clean || ((class == "good" || class == "bad" || class == "wild" || class == "wild-sub" || class == "wild-bare") &&
+				!strings.HasPrefix(mr, "/") && !strings.HasSuffix(mr, "/") && !strings.ContainsAny(mr, "\u212a\u0130")) {
+				break
+			}
+		}
 		g.r.Count("accept-element:" + class)
-		sb.WriteString(ows[g.rng.Intn(len(ows))])
+		sb.WriteString(pick(ows, 6))
 		sb.WriteString(mr)
 		if g.rng.Intn(3) == 0 {
-			p := params[g.rng.Intn(len(params))]
+			p := pick(params, 8)
 			sb.WriteString(p)
 			nontrivial = true
-			if strings.HasPrefix(strings.TrimLeft(p, " \t"), ";") && p[0] != ';' {
+			if p[0] != ';' {
 				g.r.Count("accept-element:space-before-semicolon")
 			}
 		}
-		sb.WriteString(ows[g.rng.Intn(len(ows))])
+		sb.WriteString(pick(ows, 6))
+	}
+	if clean {
+		g.r.Count("accept-style:clean")
+	} else {
+		g.r.Count("accept-style:dirty")
 	}
 	return sb.String(), nontrivial
 }
@@ -812,6 +887,10 @@ func (g *gen) malformedCase(n int, noModel bool) {
 			b, c2 = g.mutate(b)
 			class += "+" + c2
 		}
+		if i := strings.IndexByte(class, '+'); i >= 0 {
+			g.r.Count("malformed:double")
+			class = class[:i]
+		}
 		g.r.Count("malformed:" + class)
 		if !noModel {
 			lines = append(lines, g.closureFacts(tag, b, seen)...)
@@ -852,16 +931,16 @@ func generate(r *hxlib.Run, emit func(hxlib.Case)) {
 	}
 
 	// (1) dump / load round trips, model stream (maps with at most one key: deterministic payload bytes)
-	for i := 0; i < r.Budget(1200, 30000); i++ {
+	for i := 0; i < r.Budget(2000, 30000); i++ {
 		tag, v := g.pickValue(1)
 		g.roundtripCase(tag, v, false, "roundtrip")
 	}
 	// (2) the same with multi-key maps, implementation + monitor only (cbor / msgpack write maps in iteration order)
-	for i := 0; i < r.Budget(400, 10000); i++ {
+	for i := 0; i < r.Budget(600, 10000); i++ {
 		g.roundtripCase("S", genSubject(g.rng, 5), true, "roundtrip-maps")
 	}
 	// (3) HTTP
-	for i := 0; i < r.Budget(500, 12000); i++ {
+	for i := 0; i < r.Budget(900, 12000); i++ {
 		tag, v := g.pickValue(1)
 		var accepts []string
 		for k := 0; k < 6; k++ {
@@ -870,13 +949,26 @@ func generate(r *hxlib.Run, emit func(hxlib.Case)) {
 		}
 		g.httpCase(tag, v, accepts, false, "http")
 	}
-	for i := 0; i < r.Budget(100, 3000); i++ {
+	for i := 0; i < r.Budget(200, 3000); i++ {
 		var accepts []string
 		for k := 0; k < 6; k++ {
 			a, _ := g.acceptHeader()
 			accepts = append(accepts, a)
 		}
 		g.httpCase("S", genSubject(g.rng, 5), accepts, true, "http-maps")
+	}
+	// (3b) the same cycle over a real HTTP connection (httptest.Server), implementation + monitor only
+	for i := 0; i < r.Budget(150, 3000); i++ {
+		tag, v := g.pickValue(3)
+		lines := []string{"val " + tag + " " + hxlib.Hex(valueJSON(tag, v))}
+		for _, fm := range []uint8{dsd.JSON, dsd.CBOR, dsd.MsgPack, dsd.YAML, dsd.AUTO, dsd.GenCode, dsd.RAW} {
+			lines = append(lines, fmt.Sprintf("wire %d", fm))
+		}
+		for k := 0; k < 4; k++ {
+			a, _ := g.acceptHeader()
+			lines = append(lines, "wirea "+hexs(a))
+		}
+		g.emit(hxlib.Case{Lines: lines, NonTrivial: tag != "U", Kind: "http-wire:" + tag, NoModel: true})
 	}
 	// (4) FormatFromAccept alone, in bulk
 	{
@@ -893,7 +985,7 @@ func generate(r *hxlib.Run, emit func(hxlib.Case)) {
 		}
 		nt = true
 		flush()
-		for i := 0; i < r.Budget(60000, 3000000); i++ {
+		for i := 0; i < r.Budget(100000, 2000000); i++ {
 			a, n := g.acceptHeader()
 			lines = append(lines, "ffa "+hexs(a))
 			nt = nt || n
@@ -904,10 +996,10 @@ func generate(r *hxlib.Run, emit func(hxlib.Case)) {
 		flush()
 	}
 	// (5) malformed blobs against the model, (6) totality in bulk on the implementation
-	for i := 0; i < r.Budget(600, 15000); i++ {
+	for i := 0; i < r.Budget(1000, 15000); i++ {
 		g.malformedCase(12, false)
 	}
-	for i := 0; i < r.Budget(3000, 150000); i++ {
+	for i := 0; i < r.Budget(5000, 100000); i++ {
 		g.malformedCase(40, true)
 	}
 }
